@@ -625,7 +625,19 @@ class Session:
         kind = op["op"]
         out = OpOutcome(i, op)
         if self.matcher is None:
-            self._new_matcher()
+            try:
+                self._new_matcher()
+            except Exception as exc:
+                # a valid configuration the constructor refuses: the operation that needed the matcher did not succeed
+                import traceback
+                if not any("leuvenmapmatching" in fr.filename for fr in traceback.extract_tb(exc.__traceback__)):
+                    raise
+                out.exc = exc
+                out.note = "constructor-raised"
+                self.outcomes.append(out)
+                if self.on_op is not None:
+                    self.on_op(self, out)
+                return out
         m = self.matcher
         self._interference(i)
         self.simmap.begin_op(i, armed)
